@@ -156,8 +156,18 @@ def evaluate(world, run):
                         viol("C09", "success-writes-sdk", f"success-without-{file_class(rel)}", ex,
                              f"exit 0 but {rel} does not exist")
             # 5. verdict stability (reference = golden run: clean world, hash seed 0)
+            # a peer process parked in the middle of its persist phase IN THE SAME PROJECT leaves the
+            # workspace in a transient state (the SDK is a workspace member whose manifest is not written
+            # yet): failing on it with a diagnostic is a verdict about that state, not about the blueprint
+            # Likewise a peer parked in the middle of a cache write holds SQLite's write lock for as long as
+            # it is parked: "database is locked" after the busy timeout is a verdict about the environment.
+            # Clean exit, a diagnostic and failure atomicity are still required of such a run.
+            half_persisted = bool(step.get("peer_parked"))
+            if half_persisted and code == 1:
+                observe("peer_failed_on_half_persisted_workspace" if step.get("peer_same_project") else
+                        ("peer_failed_database_locked" if "database is locked" in ex["stderr"] else "peer_failed_while_other_parked"))
             if (g is not None and g["exit"] in (0, 1) and mode == "generate" and sig is None and code in (0, 1)
-                    and code != g["exit"] and not expect_fail):
+                    and code != g["exit"] and not expect_fail and not (half_persisted and code == 1)):
                 viol("C09", "verdict-stable", f"verdict-flip-{g['exit']}-to-{code}", ex,
                      f"generate({bp}) exited {g['exit']} in the clean world (hash seed 0) and {code} here "
                      f"(hash seed {step['hash_seed']}); stderr: {ex['stderr'][-300:]!r}")
